@@ -33,7 +33,7 @@ fn setup(ctx: &mut Ctx) {
 }
 
 fn strata(t: Tier) -> Vec<Stratum> {
-    vec![st("generated+lying-headers", scale(t, 20_000, 1_500_000, 4)), st("huge-padding", scale(t, 300, 10_000, 0)), st("random-with-ident", scale(t, 6_000, 400_000, 2))]
+    vec![st("generated+lying-headers", scale(t, 800_000, 8_000_000, 4)), st("huge-padding", scale(t, 12_000, 120_000, 0)), st("random-with-ident", scale(t, 240_000, 2_400_000, 2))]
 }
 
 pub fn alloc_bound(stream_len: usize) -> u64 {
